@@ -33,6 +33,9 @@ type Ind struct {
 	// KF returns the id of the recorded finding that exempts the formula check
 	// of output o at position k for input length n ("" = none).
 	KF func(cfg []int, n, o, k int) string
+	// KF15 / KF18: the same for the range/order checks (C15) and the scaling check (C18).
+	KF15 func(cfg []int, n, o, k int) string
+	KF18 func(cfg []int, n, o, k int) string
 	// KFLen returns the id of a recorded finding about the output length for n inputs.
 	KFLen func(cfg []int, n int) string
 	// KFOutcome: recorded finding about termination (deadlock/leak) for n inputs.
